@@ -562,15 +562,20 @@ pub fn run(ctx: &Ctx) -> i32 {
     }
     let alphabet = small_scope_ops();
     let len = if ctx.thorough() { 4 } else { 3 };
-    let plain = (alphabet.len() as u64).pow(len);
+    // thorough tier (len 4): the two towers are interchangeable at the start, so the first operation is taken from tower 0's
+    // half of the alphabet only (the alphabet lists tower 0's operations first)
+    let first_base = if ctx.thorough() { alphabet.len() as u64 / 2 } else { alphabet.len() as u64 };
+    let plain = first_base * (alphabet.len() as u64).pow(len - 1);
     // second family: any two operations, then abandon t, then the late reply (accepted / rejected) of a request that was
     // in flight for (t, l) - the order in which a retrier's completion and abandontower can really interleave
-    let late = (alphabet.len() as u64).pow(len - 1) * 8;
+    let late = (alphabet.len() as u64).pow(if ctx.thorough() { len - 2 } else { len - 1 }) * 8;
     let total = plain + late;
     let mut stats = runner::run_indexed(ctx, total, &|mut i| {
         let mut ops = vec![Op::Register { t: 0 }, Op::Register { t: 1 }];
         if i < plain {
-            for _ in 0..len {
+            ops.push(alphabet[(i % first_base) as usize]);
+            i /= first_base;
+            for _ in 1..len {
                 ops.push(alphabet[(i % alphabet.len() as u64) as usize]);
                 i /= alphabet.len() as u64;
             }
@@ -578,7 +583,7 @@ pub fn run(ctx: &Ctx) -> i32 {
             i -= plain;
             let (t, l, accepted) = ((i & 1) as u8, ((i >> 1) & 1) as u8, (i >> 2) & 1 == 1);
             i >>= 3;
-            for _ in 0..len - 1 {
+            for _ in 0..(if ctx.thorough() { len - 2 } else { len - 1 }) {
                 ops.push(alphabet[(i % alphabet.len() as u64) as usize]);
                 i /= alphabet.len() as u64;
             }
@@ -596,7 +601,7 @@ pub fn run(ctx: &Ctx) -> i32 {
     let mut ev = Evidence::default();
     ev.level = "exploration".into();
     ev.rule = format!(
-        "exhaustive small scope: every sequence of {len} operations out of {} plus every sequence of {len}-1 operations followed by abandon t and the late reply (accepted / rejected) of a request in flight for (t, l) (register / abandon / accepted / pending / invalid / pending->accepted / pending->invalid / misbehaved / late reply of an abandoned tower over 2 towers x 2 locators) after two registrations ({exhaustive_n} sequences; operations whose caller-side precondition does not hold are skipped and counted); random: sequences of up to 24 operations over 2-3 towers and 2-3 locators incl. non-extending renewals and subscription errors. After EVERY operation: WTClient.towers == DBM::load_towers == load_tower_record == reference model; a freshly re-opened client reproduces it (pending => temporary unreachable + handed to the retry manager, proof => misbehaving); after abandon no row of any table mentions the tower and no other tower's row changed; every pending/invalid link has its body. Non-trivial = at least two operations applied including an abandon, a pending transition or a misbehaviour; distinct = distinct operation lists.",
+        "exhaustive small scope: every sequence of {len} operations out of {} (thorough tier: the first one from tower 0's half, the towers being interchangeable at the start) plus every sequence of 2 operations followed by abandon t and the late reply (accepted / rejected) of a request in flight for (t, l) (register / abandon / accepted / pending / invalid / pending->accepted / pending->invalid / misbehaved / late reply of an abandoned tower over 2 towers x 2 locators) after two registrations ({exhaustive_n} sequences; operations whose caller-side precondition does not hold are skipped and counted); random: sequences of up to 24 operations over 2-3 towers and 2-3 locators incl. non-extending renewals and subscription errors. After EVERY operation: WTClient.towers == DBM::load_towers == load_tower_record == reference model; a freshly re-opened client reproduces it (pending => temporary unreachable + handed to the retry manager, proof => misbehaving); after abandon no row of any table mentions the tower and no other tower's row changed; every pending/invalid link has its body. Non-trivial = at least two operations applied including an abandon, a pending transition or a misbehaviour; distinct = distinct operation lists.",
         alphabet.len()
     );
     ev.extra.insert("exhaustive_small_scope_sequences".into(), json!(exhaustive_n));
